@@ -11,6 +11,8 @@ type RollingOpts struct {
 	OwnUpdated   int // 0 draw, 1 always, -1 never
 	MaxReplicas  int
 	Workers      int
+	MaxParents   int  // >1: draw 1..MaxParents parents
+	Customize    bool // draw whether the controller has a customize hook (valid related rules only)
 }
 
 // newRollingSetup builds a composite controller with one rolling child kind.
@@ -78,6 +80,30 @@ func newRollingSetup(w *World, ro RollingOpts) *Setup {
 	}
 	mustCreate(w.Store, cfg.Parent, ns, NewThing(cfg.Parent, ns, "p0", 1+t.Pick(mr, "replicas"), "c0"), "user")
 	s.Parents = []ParentRef{{cfg.Parent, ns, "p0"}}
+	if ro.MaxParents > 1 {
+		for i, n := 1, 1+t.Pick(ro.MaxParents, "nparents"); i < n; i++ {
+			pns := ns
+			if cfg.Parent.Namespaced {
+				pns = Namespaces[t.Pick(2, "pns")]
+			}
+			name := fmt.Sprintf("p%d", i)
+			mustCreate(w.Store, cfg.Parent, pns, NewThing(cfg.Parent, pns, name, 1+t.Pick(mr, "replicas"), "c0"), "user")
+			s.Parents = append(s.Parents, ParentRef{cfg.Parent, pns, name})
+		}
+	}
+	if ro.Customize && t.Pick(3, "customize") > 0 {
+		cfg.Customize = true
+		EditObject(w, ResCompositeCtl, "", cfg.Name, "setup", func(o Object) { o["spec"] = cfg.Object()["spec"] })
+		s.Progs["cc"].Customize = CustomizeFromSpec("parent")
+		populateRelated(w)
+		for _, p := range s.Parents {
+			rules := drawRelatedRules(t, p.NS, -1)
+			EditObject(w, p.Res, p.NS, p.Name, "setup", func(o Object) { setPath(o, rules, "spec", "related") })
+		}
+		w.InlineUnsyncedHooks = true
+	}
+	w.Cfg["customize"] = fmt.Sprint(cfg.Customize)
+	w.Cfg["parents"] = fmt.Sprint(len(s.Parents))
 	s.Sig = compositeSig(cfg, opts)
 	s.Sig["method"] = method
 	s.Sig["ownUpdated"] = fmt.Sprint(tp.OwnUpdated)
